@@ -752,6 +752,10 @@ let rec run toks =
     (* documented: division by zero raises DIVIDE_BY_ZERO *)
     if List.exists2 (fun x y -> scalar2_undefined o x y) tabA tabB then raise (Err "DIVIDE_BY_ZERO");
     let t = apply2 (szf fr) fsc fa.rule fb.rule fr.rule l O ta tb in
+    (* integers outside the terminal range are rejected (C19: VALUE_OVERFLOW) *)
+    if fr.range = RInt then
+      List.iter (fun v -> match getIntegerHandle v with
+          | Err c -> raise (Err (ocaml_string c)) | Ok _ -> ()) (table (szf fr) fr.rule l t);
     set_edge r fn t; show r
   | "unary" :: r :: fn :: op :: a :: _ when op <> "index" ->
     Hashtbl.remove edges r; Hashtbl.remove evtabs r;
